@@ -60,15 +60,21 @@ func c18Scan(readme []byte, header []byte, entries []c18Entry) (class, detail st
 		rest = skipSpace(rest)
 		var line []byte
 		line, rest = takeLine(rest)
-		if !bytes.HasPrefix(line, []byte("###")) {
+		// a heading of any level; the statement says the section shows the title, not which level the heading has
+		lvl := 0
+		for lvl < len(line) && line[lvl] == '#' {
+			lvl++
+		}
+		if lvl == 0 || lvl > 6 {
 			return "section", fmt.Sprintf("section %d (%s): expected a heading, found %q", i, e.Name, clip(string(line), 80))
 		}
-		if got, want := strings.TrimSpace(string(line[3:])), strings.TrimSpace(e.Title); got != want {
+		if got, want := strings.TrimSpace(string(line[lvl:])), strings.TrimSpace(e.Title); got != want {
 			return "title", fmt.Sprintf("section %d (%s): heading shows %q, the list line's title is %q", i, e.Name, got, want)
 		}
 		rest = skipSpace(rest)
 		line, rest = takeLine(rest)
-		if strings.TrimRight(string(line), " \t\r") != "```" {
+		// the opening fence may carry an info string (```fsharp); the closing one may not
+		if !strings.HasPrefix(string(line), "```") || strings.Contains(string(line[3:]), "`") {
 			return "fence", fmt.Sprintf("section %d (%s): expected the opening code fence, found %q", i, e.Name, clip(string(line), 80))
 		}
 		if !bytes.HasPrefix(rest, e.Content) {
@@ -83,7 +89,7 @@ func c18Scan(readme []byte, header []byte, entries []c18Entry) (class, detail st
 		line, rest = takeLine(rest)
 		base := strings.TrimSuffix(e.Name, ".fo")
 		link := "[gen_" + base + ".go](./gen_" + base + ".go)"
-		if !bytes.Contains(line, []byte(link)) {
+		if !bytes.Contains(line, []byte(link)) && !bytes.Contains(line, []byte("[gen_"+base+".go](gen_"+base+".go)")) {
 			return "link", fmt.Sprintf("section %d (%s): expected the link %s, found %q", i, e.Name, link, clip(string(line), 120))
 		}
 	}
@@ -551,6 +557,7 @@ func checkC18(tier string) {
 			"read_fault_runs":  len(outs2),
 			"fault_kinds":      []string{"read_error", "missing", "is_dir", "write_error", "enospc", "capacity", "dest_is_dir"},
 			"fixed_header":     string(c18Header),
+			"real_directory_leg": "1 fault-free scenario in 40 (a third with the README of an earlier run over a longer list present) and 1 missing/directory scenario in 20 are repeated with the shipped tool on a real directory; the reference reader is applied to the whole README left on disk. Write-fault batch: 1 scenario in 4 with a write error / ENOSPC / full disk / directory in place of README.md, demand: non-zero exit",
 			"not_generated":    "list lines that start with a space, consist of spaces only or contain \\r; file names with a slash (the property does not say what a file name is for them)",
 		},
 		[]string{"exact blank-line counts and the wording around the link are not judged",
